@@ -6,6 +6,8 @@ harness can compare up to isomorphism and, with retained names, the names as set
 -/
 import AutomataVerif.Driver.Proto
 import AutomataVerif.Model.DFACompare
+import AutomataVerif.Model.DFAEqPick
+import AutomataVerif.Model.DFAComplement
 import AutomataVerif.Model.Convert
 
 namespace AV.Driver.DfaOps
@@ -108,18 +110,22 @@ def dfaToComplete : P String := do
   let custom ← bool
   pure (showRes showDFA (A.toComplete trap custom))
 
+/-- `complement(retain_names, minify)`: executes `DFA.complementFull` / `DFA.complementMinFull`
+(Model/DFAComplement.lean), the definitions `C04_complement` / `C04_complement_min` are about. -/
 def dfaComplement : P String := do
   let retain ← bool
   let minify ← bool
   let seed ← nat
   let A ← dfa
   let trap ← int
-  let C := if A.allowPartial then A.toComplete trap false else .ok A
-  match C with
-  | .error e => pure s!"err {e.name}"
-  | .ok C =>
-    if minify then pure ("ok " ++ showCanon (C.complementMin (pickOf seed)) retain)
-    else pure ("ok " ++ showDFA C.complementPlain)
+  if minify then
+    match A.complementMinFull trap (pickOf seed) with
+    | .error e => pure s!"err {e.name}"
+    | .ok R => pure ("ok " ++ showCanon R retain)
+  else
+    match A.complementFull trap with
+    | .error e => pure s!"err {e.name}"
+    | .ok R => pure ("ok " ++ showDFA R)
 
 def dfaCmp : P String := do
   let A ← dfa
@@ -129,10 +135,40 @@ def dfaCmp : P String := do
   | .ok c => pure ("ok " ++ " ".intercalate
       ([c.eq, c.ne, c.le, c.lt, c.ge, c.gt, c.sub, c.sup, c.disj].map showBool))
 
+def showEqRes : DFA.EqRes → String
+  | .notImplemented => "NI"
+  | .outOfFuel => "FUEL"
+  | .val b => showBool b
+
+/-- `==` through the pick-parametric Hopcroft–Karp loop: networkx's policy with both
+tie-breaks, the two constant policies, and the fixed-direction `eqv`. -/
+def dfaEqPick : P String := do
+  let A ← dfa
+  let B ← dfa
+  pure (" ".intercalate [
+    showEqRes (A.eqvNx (fun _ _ => true) B), showEqRes (A.eqvNx (fun _ _ => false) B),
+    showEqRes (A.eqvPick (fun _ _ _ => true) B), showEqRes (A.eqvPick (fun _ _ _ => false) B),
+    match A.eqv B with | none => "NI" | some b => showBool b])
+
 def dfaEmptyFin : P String := do
   let A ← dfa
   pure (" ".intercalate [showBool A.isempty, showBool A.isfinite,
     showRes (fun (o : Option Nat) => match o with | none => "N" | some k => toString k) A.maxWordLength])
+
+/-- `PART_REFINE items S₁ … S_k`: `PartitionRefinement(items)` followed by `refine(S₁)`, …,
+`refine(S_k)`.  After every call: the partition (every block as a sorted set) and the returned
+pairs, each pair rendered by the CONTENTS of the two blocks `(A ∩ S, A \ S)` (ids are `id(set)`
+in Python, fresh counters in the model). -/
+def partRefine : P String := do
+  let items ← many int
+  let sets ← many (many int)
+  let step := fun (acc : DFA.Part Int × List String) (S : List Int) =>
+    let r := acc.1.refine S
+    let p := r.1
+    (p, acc.2 ++ ["STEP", showList (fun (b : Nat × List Int) => showSet b.2) p.blocks,
+      showList (fun (pr : Nat × Nat) => showSet (p.get pr.1) ++ " " ++ showSet (p.get pr.2)) r.2])
+  let r := sets.foldl step (DFA.Part.init items, [])
+  pure (" ".intercalate ("ok" :: showList (fun (b : Nat × List Int) => showSet b.2) (DFA.Part.init items).blocks :: r.2))
 
 def fromNfa : P String := do
   let retain ← bool
@@ -153,8 +189,10 @@ def handle (cmd : String) (args : List String) : Except String String :=
   | "DFA_TO_COMPLETE" => run dfaToComplete args
   | "DFA_COMPLEMENT" => run dfaComplement args
   | "DFA_CMP" => run dfaCmp args
+  | "DFA_EQ_PICK" => run dfaEqPick args
   | "DFA_EMPTYFIN" => run dfaEmptyFin args
   | "DFA_FROM_NFA" => run fromNfa args
+  | "PART_REFINE" => run partRefine args
   | "NFA_FROM_DFA" => run (do let d ← dfa; pure ("ok " ++ showNFA (NFA.ofDFA d))) args
   | "NFA_ELIM" => run (do let n ← nfa; pure ("ok " ++ showNFA n.eliminateLambda)) args
   | "PING" => .ok "pong"
